@@ -547,8 +547,15 @@ fn gen_level(t: &mut Tape<'_>, opts: &GenOpts, depth: usize, name: &str, inh: &I
                 } else {
                     Pred::Equals((*t.pick(VALUES)).to_owned())
                 };
-                a.requires_ifs.push((p, t.pick(&others).clone()));
+                let target = t.pick(&others).clone();
+                a.requires_ifs.push((p, target.clone()));
+                if t.chance(1, 3) {
+                    // a second edge to the same target under another predicate
+                    a.requires_ifs.push((Pred::Equals((*t.pick(VALUES)).to_owned()), target));
+                }
             }
+            // half of the definitions use the plural builder methods (requires_ifs, conflicts_with_all, overrides_with_all)
+            a.plural_builders = t.bool();
             if t.chance(opts.relation_weight, 12) && !a.is_positional() && !a.global {
                 a.exclusive = true;
             }
